@@ -34,6 +34,9 @@ structure SlotRec where
   obj : Nat
   live : Bool
   pristine : Bool     -- derived from the created handle by clones only (never travelled)
+  attachedReal : Bool := true   -- real state is LocalCreated / LocalReceived (as printed by the real handle)
+  regConn : Nat := 0            -- for a non-attached handle: connection and endpoint of the registration
+  regEp : Nat := 0              --   its id was made by (the send of an attached handle it descends from)
   deriving Inhabited
 
 structure ObjRec where
@@ -43,6 +46,7 @@ structure ObjRec where
   takenReal : Bool    -- an `into_inner` has returned a value or a type error for it
   provided : Bool
   provDropped : Bool
+  flagged : Bool := false   -- the provider-drop finding was already reported for this object
   deriving Inhabited
 
 structure MsgRec where
@@ -50,6 +54,8 @@ structure MsgRec where
   conn : Nat
   dst : Nat
   flying : Bool
+  regConn : Nat := 0
+  regEp : Nat := 0
   deriving Inhabited
 
 inductive Mode | idle | handle | lazy
@@ -130,8 +136,8 @@ def handleOp (st : St) (n : Nat) (line : String) (lhs : List String) (rhs : List
     | some ep, some tag, some nonce, some slot, some obj =>
       let s' := Handle.settle (Handle.create s ep tag nonce (prov == "1"))
       let st := { st with hs := s',
-                          slots := st.slots.push ⟨ep, obj, true, true⟩,
-                          objs := st.objs.push ⟨ep, tag, nonce, false, prov == "1", false⟩ }
+                          slots := st.slots.push { ep := ep, obj := obj, live := true, pristine := true },
+                          objs := st.objs.push { ep := ep, tag := tag, nonce := nonce, takenReal := false, provided := prov == "1", provDropped := false } }
       if slot + 1 != s'.handles.length || obj + 1 != s'.objs.length then st.diff n "slot-numbering" line else return st
     | _, _, _, _, _ => st.diff n "unparsable" line
   | ["clone", h], [r] =>
@@ -154,7 +160,10 @@ def handleOp (st : St) (n : Nat) (line : String) (lhs : List String) (rhs : List
       | some s', ["ok", m] =>
         let srec := st.slots[h]!
         let dst := (Handle.otherEnd s.topo c ep).getD 0
-        let st := { st with hs := s', msgs := st.msgs.push ⟨srec.obj, c, dst, true⟩ }
+        -- a created handle (or a clone of it) makes a new registration in the storage of (its endpoint, c);
+        -- a handle that has travelled carries the id of the registration it descends from
+        let (rc, re) := if srec.pristine then (c, srec.ep) else (srec.regConn, srec.regEp)
+        let st := { st with hs := s', msgs := st.msgs.push { obj := srec.obj, conn := c, dst := dst, flying := true, regConn := rc, regEp := re } }
         if m.toNat? != some (s'.msgs.length - 1) then st.diff n "message-numbering" line else return st
       | none, ["err"] => return st
       | some _, ["err"] => st.diff n "send-failed-but-model-sends" line
@@ -165,19 +174,23 @@ def handleOp (st : St) (n : Nat) (line : String) (lhs : List String) (rhs : List
     match m.toNat? with
     | none => st.diff n "unparsable" line
     | some m =>
-      let mrec := st.msgs[m]?.getD ⟨0, 0, 0, false⟩
+      let mrec := st.msgs[m]?.getD { obj := 0, conn := 0, dst := 0, flying := false }
       let msgs := if m < st.msgs.size then st.msgs.set! m { mrec with flying := false } else st.msgs
       match stepSettle s (.deliver m), r with
       | some s', [slot, kind, uid] =>
-        let st := { st with hs := s', msgs := msgs, slots := st.slots.push ⟨mrec.dst, mrec.obj, true, false⟩ }
+        let st := { st with hs := s', msgs := msgs,
+                            slots := st.slots.push { ep := mrec.dst, obj := mrec.obj, live := true, pristine := false,
+                                                     attachedReal := kind != "remote", regConn := mrec.regConn, regEp := mrec.regEp } }
         let hd := s'.handles.getLast?.getD ⟨0, .remote 0, false, [], 0⟩
         let st ← if slot.toNat? != some (s'.handles.length - 1) then st.diff n "slot-numbering" line else pure st
         let st := if kind == "received" then { st with interesting := true } else st
         -- predicate on the real result: re-attachment only on the creating endpoint
-        let orec := st.objs[mrec.obj]?.getD ⟨0, 0, 0, false, false, false⟩
+        let orec := st.objs[mrec.obj]?.getD default
         let st ← if kind == "received" && orec.ep != mrec.dst then
             st.fail n "confinement" "handle-reattached-on-foreign-endpoint" line else pure st
         let st ← if kind == "created" then st.fail n "confinement" "received-handle-is-LocalCreated" line else pure st
+        let st ← if kind == "received" && (mrec.conn != mrec.regConn || mrec.dst != mrec.regEp) then
+            st.fail n "confinement" "handle-reattached-through-another-connections-storage" line else pure st
         let st ← if kind != hstText hd.st then st.diff n s!"handle-state model={hstText hd.st}" line else pure st
         -- uuid ↔ model id: a bijection
         match hd.st.id?, uid.toNat? with
@@ -189,7 +202,8 @@ def handleOp (st : St) (n : Nat) (line : String) (lhs : List String) (rhs : List
         | _, _ => return st
       | none, ["none"] => return { st with msgs := msgs }
       | some s', ["none"] =>
-        let st := { st with hs := s', msgs := msgs, slots := st.slots.push ⟨mrec.dst, mrec.obj, false, false⟩ }
+        let st := { st with hs := s', msgs := msgs,
+                            slots := st.slots.push { ep := mrec.dst, obj := mrec.obj, live := false, pristine := false } }
         st.diff n "message-not-received-but-model-delivers" line
       | none, _ => ({ st with msgs := msgs }).diff n "message-received-but-model-has-none" line
       | _, _ => st.diff n "unparsable" line
@@ -206,8 +220,8 @@ def handleOp (st : St) (n : Nat) (line : String) (lhs : List String) (rhs : List
   | ["access", kind, h, tag], r =>
     match kindOf kind, h.toNat?, tag.toNat? with
     | some k, some h, some tag =>
-      let srec := st.slots[h]?.getD ⟨0, 0, false, false⟩
-      let orec := st.objs[srec.obj]?.getD ⟨0, 0, 0, false, false, false⟩
+      let srec := st.slots[h]?.getD { ep := 0, obj := 0, live := false, pristine := false }
+      let orec := st.objs[srec.obj]?.getD default
       -- predicates on the real result first
       let st := if srec.ep != orec.ep || tag != orec.tag || orec.takenReal then { st with interesting := true } else st
       let st ← match r with
@@ -279,7 +293,7 @@ def handleDrops (st : St) (n : Nat) (line : String) (arg : String) : IO St := do
       st ← st.diff n s!"drop-counters model={showNatList expect}" line
     for o in List.range ds.length do
       let d := ds[o]!
-      let orec := st.objs[o]?.getD ⟨0, 0, 0, false, false, false⟩
+      let orec := st.objs[o]?.getD default
       let liveAny := st.slots.any (fun r => r.live && r.obj == o)
       let liveHome := st.slots.any (fun r => r.live && r.obj == o && r.ep == orec.ep)
       let livePristine := st.slots.any (fun r => r.live && r.obj == o && r.pristine)
@@ -290,6 +304,11 @@ def handleDrops (st : St) (n : Nat) (line : String) (arg : String) : IO St := do
         st ← st.fail n "released" "value-not-dropped-after-every-handle-is-gone" line
       if d == 0 && orec.provDropped && !liveHome then
         st ← st.fail n "released" "value-not-dropped-after-provider-drop" line
+      -- finding F-C20-1 (property as worded: released once the provider is dropped): a handle that is
+      -- attached on the creating endpoint keeps the value alive and usable after the provider drop
+      if d == 0 && orec.provDropped && liveHome && !orec.takenReal && !orec.flagged then
+        st ← st.fail n "released" "value-kept-alive-by-local-handle-after-provider-drop" line
+        st := { st with objs := st.objs.set! o { orec with flagged := true } }
       if d ≥ 1 && livePristine && !orec.takenReal then
         st ← st.fail n "released" "value-dropped-while-a-local-handle-holds-it" line
     return st
@@ -352,6 +371,15 @@ def lazyOp (st : St) (n : Nat) (line : String) (lhs : List String) (rhs : List S
     let s' := Lazy.lstep s (.fetch cuts)
     let expect := s'.results.getLast?.getD .err
     if armed then st := { st with interesting := true, lcut := true }
+    -- finding F-C20-2: a LazyBlob that was never sent cannot be fetched (FetchError::Dropped although
+    -- nothing was dropped or cut); if the code is repaired the value is accepted as well
+    if s.blob && s.hops == 0 && !cached && s.prov == .waiting && !armed then
+      match real with
+      | some .err =>
+        st ← st.fail n "lazy_fidelity" "never-sent-blob-cannot-be-fetched" line
+        return { st with ls := s' }
+      | some rr => return { st with ls := { s' with cache := some rr, results := s.results ++ [rr] } }
+      | none => return { st with ls := s' }
     match real with
     | none => return { st with ls := s' }
     | some rr =>
